@@ -10,6 +10,9 @@ from . import solve
 def main():
     pat = sys.argv[1] if len(sys.argv) > 1 else ""
     verbose = "-v" in sys.argv
+    only = sys.argv[sys.argv.index("-o") + 1] if "-o" in sys.argv else None
+    dump = "-d" in sys.argv
+    tmo = float(sys.argv[sys.argv.index("-t") + 1]) if "-t" in sys.argv else None
     cdb = ContractDB("/verif/contracts")
     specs = SpecDB("/verif/contracts/spec")
     import os; repo = Repo(os.environ.get("PYVC_REPO","/repo"))
@@ -28,16 +31,24 @@ def main():
         print(f"   vcgen {time.time()-t0:.2f}s, {len(fr.order)} obligations, dropped {len(fr.dropped)}")
         params = {n: (v, fr.init_state.heap) for n, v in fr.init_state.env.items() if not n.startswith("$")}
         for name in fr.order:
+            if only and only not in name:
+                continue
             ob = fr.obligations[name]
             verdicts = []
             for inst in ob.instances:
-                r = solve.discharge(eng, inst, timeout_ms=int((c.timeout or 10) * 1000), fuel=c.fuel, params=params)
+                r = solve.discharge(eng, inst, timeout_ms=int((tmo or c.timeout or 10) * 1000), fuel=c.fuel, params=params)
                 verdicts.append(r)
             bad = [r for r in verdicts if r["verdict"] != "proved"]
             tot = sum(r["seconds"] for r in verdicts)
             print(f"   {'OK ' if not bad else 'FAIL'} {name}  [{len(verdicts)} inst, {tot:.2f}s]")
             for r in bad[:2]:
                 print("        ", r["verdict"], r.get("reason"), str(r.get("model"))[:300])
+            if dump and bad:
+                k = [i for i, r in enumerate(verdicts) if r["verdict"] != "proved"][0]
+                inst = ob.instances[k]
+                print("      --- instance", k, inst.info)
+                for h in inst.hyps: print("      H:", str(h).replace("\n", "\n         "))
+                print("      G:", inst.goal)
         for nm, hyps in fr.canaries:
             ok = solve.canary(eng, hyps, fuel=c.fuel)
             if not ok: print("   VACUOUS", nm)
